@@ -122,6 +122,17 @@ Fixpoint json_eqb (a b : json) : bool :=
   | _, _ => false
   end.
 
+(* list indexing by an N that may be astronomically large (an index taken from the data: `a.[18446744073709551615]`,
+   `lookup a 9007199254740993`): the bounds test comes first so that evaluation never builds a huge unary number *)
+Definition nth_N {A} (l : list A) (i : N) : option A :=
+  if N.ltb i (N.of_nat (length l)) then nth_error l (N.to_nat i) else None.
+
+Lemma nth_N_spec {A} (l : list A) (i : N) : nth_N l i = nth_error l (N.to_nat i).
+Proof.
+  unfold nth_N. destruct (N.ltb_spec i (N.of_nat (length l))) as [H|H]; [reflexivity|].
+  symmetry. apply nth_error_None. lia.
+Qed.
+
 (* ---------- context::get_data ---------- *)
 Inductive nav_res :=
 | NavSome (v : json)
@@ -132,7 +143,7 @@ Definition get_data (d : option json) (p : str) : nav_res :=
   match d with
   | Some (JArr l) =>
       match parse_usize p with
-      | Some i => match nth_error l (N.to_nat i) with Some v => NavSome v | None => NavNone end
+      | Some i => match nth_N l i with Some v => NavSome v | None => NavNone end
       | None => NavBadIndex p
       end
   | Some (JObj m) => match map_get m p with Some v => NavSome v | None => NavNone end
